@@ -271,7 +271,7 @@ def write_replay(pid, seed, scenario, violation, out):
     d = os.environ.get('VERIF_REPLAY_DIR') or os.path.join(boot.VERIF, 'replays')
     os.makedirs(d, exist_ok=True)
     sigslug = hashlib.sha256(violation['sig'].encode()).hexdigest()[:8]
-    path = os.path.join(d, f'{pid}-{seed}-{sigslug}.json')
+    path = os.path.join(d, f'{pid}-{seed}-{sigslug}-{scenario_digest(scenario)[:8]}.json')
     with open(path, 'w') as f:
         json.dump(
             {
@@ -332,6 +332,42 @@ def replay_fresh(path):
 # ---------------------------------------------------------------------------------
 # the check
 # ---------------------------------------------------------------------------------
+
+
+def shrink_fresh(pid, mod, seed, scenario, sig, vv, path, budget=40):
+    """ddmin over the step list where every candidate is executed in a fresh interpreter."""
+    steps_key = getattr(mod, 'STEPS_KEY', 'steps')
+    best, best_path, best_v = copy.deepcopy(scenario), path, vv
+    used = 0
+    n = 2
+    while used < budget and len(best.get(steps_key, [])) >= 2:
+        steps = best[steps_key]
+        chunk = max(1, len(steps) // n)
+        reduced = False
+        for start in range(0, len(steps), chunk):
+            if used >= budget:
+                break
+            cand = copy.deepcopy(best)
+            cand[steps_key] = steps[:start] + steps[start + chunk:]
+            if not cand[steps_key] or (hasattr(mod, 'valid') and not mod.valid(cand)):
+                continue
+            p = write_replay(pid, seed, cand, {'kind': vv['kind'], 'sig': sig, 'detail': None}, {'digest': None, 'log': None})
+            used += 1
+            ok, _ = replay_fresh(p)
+            if ok:
+                best, best_path = cand, p
+                n = max(n - 1, 2)
+                reduced = True
+                break
+            try:
+                os.unlink(p)
+            except OSError:
+                pass
+        if not reduced:
+            if chunk == 1:
+                break
+            n = min(len(steps), n * 2)
+    return best, best_path, best_v, used
 
 
 def seeds_for(base, start, count):
@@ -417,6 +453,7 @@ def run_check(pid, tier, base_seed=None, budget_s=None, workers=None, runs=None)
         by_sig.setdefault(v['sig'], []).append((seed, scn, v))
     reported = []
     known_seen = []
+    unstable = []
     exit_code = 0
     for sig in sorted(by_sig):
         cases = sorted(by_sig[sig], key=lambda c: (len(canon(c[1])), c[0]))
@@ -435,14 +472,36 @@ def run_check(pid, tier, base_seed=None, budget_s=None, workers=None, runs=None)
         small, execs = shrink(mod, scn, sig, max_exec=getattr(mod, 'SHRINK_EXECS', 400))
         out = run_one(mod, small, want_log=True)
         vv = next((x for x in out.get('violations', []) if x['sig'] == sig), None)
-        if vv is None:
-            harness_fail = f'shrunk scenario for signature {sig!r} (seed {seed}) does not reproduce in-process'
-            continue
-        path = write_replay(pid, seed, small, vv, out)
-        ok, txt = replay_fresh(path)
+        path = ok = None
+        txt = ''
+        if vv is not None:
+            path = write_replay(pid, seed, small, vv, out)
+            ok, txt = replay_fresh(path)
         if not ok:
-            harness_fail = f'replay {path} did not reproduce in a fresh interpreter:\n{txt[-2000:]}'
-            continue
+            # The minimised scenario does not stand on its own in a fresh interpreter.  That happens when the code
+            # under test keeps state between executions inside one process (a module-level cache, say): the shrinker's
+            # own candidates then influence each other.  Fall back to a case as found, verified in a fresh interpreter,
+            # and minimise it with fresh-process executions only (slow, small budget).
+            found = None
+            for seed2, scn2, _v2 in cases[:12]:
+                out2 = run_one(mod, scn2, want_log=True)
+                v2 = next((x for x in out2.get('violations', []) if x['sig'] == sig), None)
+                if v2 is None:
+                    continue
+                p2 = write_replay(pid, seed2, scn2, v2, out2)
+                ok2, txt2 = replay_fresh(p2)
+                if ok2:
+                    found = (seed2, scn2, v2, p2)
+                    break
+                txt = txt2
+            if found is None:
+                unstable.append(f'violation {sig!r} (seed {seed}, {total["sig_counts"].get(sig, len(cases))} occurrences) reproduces neither minimised nor as '
+                                f'found in a fresh interpreter — it depends on what the worker process executed before that run')
+                continue
+            seed, scn2, vv, path = found
+            small, path, vv, fexecs = shrink_fresh(pid, mod, seed, scn2, sig, vv, path)
+            execs = f'{execs} in-process (unstable) + {fexecs} fresh-process'
+            print(f'  note: minimisation of {sig} was redone with fresh-process executions (state leaks between executions in one process)')
         reported.append(
             {'signature': sig, 'seed': seed, 'count': total['sig_counts'].get(sig, len(cases)), 'replay': path, 'shrink_execs': execs, 'detail': vv.get('detail')}
         )
@@ -451,6 +510,11 @@ def run_check(pid, tier, base_seed=None, budget_s=None, workers=None, runs=None)
         print(f'  detail: {json.dumps(vv.get("detail"), default=str)[:1200]}')
         exit_code = 1
 
+    for msg in unstable:
+        print('UNSTABLE: ' + msg)
+    if unstable and exit_code == 0 and not harness_fail:
+        # nothing could be confirmed in a fresh interpreter: not reported as a violation of the property
+        harness_fail = 'only process-history dependent alarms were seen; ' + unstable[0]
     if tier == 'thorough' and os.environ.get('VERIF_THOROUGH_SELFTEST', '1') != '0' and not os.environ.get('VERIF_REPO') and exit_code == 0 and not harness_fail:
         # sensitivity: the mutant table of this property (scratch copies under mktemp, removed afterwards)
         from simtz import selftest
